@@ -110,6 +110,8 @@ def execute(case, prefix, seed):
     n = case["n"]
     g = grid.Grid(n, nclients=3 if case.get("pre") == "concurrent" else 2, chooser=ch, fault_kinds=("disconnect",) if case.get("faults") else (), client_kw=client_kw(case))
     g.sched.batch = bool(case.get("batch"))     # turn granularity, see grid.Sched.batch
+    if case.get("cpu"):
+        g.sched.cpu_events()     # thread-pool work completes as a scheduled event, see grid.Sched.cpu_events
     rig = lib_helper.Rig(g)
     try:
         g.sched.fault_filter = lambda e: e.conn.si >= lib_helper.HELPER_SI and e.conn.ci == 0
